@@ -1,0 +1,28 @@
+//go:build verif
+// +build verif
+
+package verifhook
+
+import (
+	"sync"
+	"sync/atomic"
+)
+
+// RWHandler is called by the goroutine that reached the site; mu is the lock that guards the structure which
+// the goroutine has just looked at and is about to update.
+type RWHandler func(site string, mu *sync.RWMutex)
+
+var rwHandler atomic.Value
+
+// SetRWHandler installs the handler (nil removes it).
+func SetRWHandler(h RWHandler) {
+	rwHandler.Store(h)
+}
+
+// PointRW marks a place between the look-up and the update of a structure that mu guards. Where mu is held at
+// that place (one critical section) nothing can come between the two; the handler can tell with mu.TryLock.
+func PointRW(site string, mu *sync.RWMutex) {
+	if h, ok := rwHandler.Load().(RWHandler); ok && h != nil {
+		h(site, mu)
+	}
+}
